@@ -3,7 +3,8 @@
    theorems of proofs/DocJsonP.v speak about the file that is on disk now. *)
 From Coq Require Import List Bool ZArith String Arith Lia.
 Import ListNotations.
-From HV Require Import lib.Harness model.Schema model.SerialHugr model.DocJson proofs.SchemaP proofs.DocJsonP gen.Schemas.
+From HV Require Import lib.Harness model.Schema model.SerialHugr model.DocJson model.NodeParent proofs.SchemaP proofs.DocJsonP
+  proofs.NodeParentP gen.Schemas.
 Open Scope string_scope.
 Open Scope nat_scope.
 
@@ -13,6 +14,25 @@ Lemma strict_SerialHugr_shape : def_matches published_hugr_strict "SerialHugr" s
 Proof. vm_compute. reflexivity. Qed.
 Lemma strict_Package_shape : def_matches published_hugr_strict "Package" shape_Package = true.
 Proof. vm_compute. reflexivity. Qed.
+
+(* OpType and the 21 operation classes of its oneOf apply to the member `parent` nothing but {"type": "integer"} and
+   never compare the whole object with a constant: the verdict on an operation object does not depend on the parent
+   index (proofs/NodeParentP.v) *)
+Lemma strict_OpType_parent_cert : pclosed published_hugr_strict (optype_names published_hugr_strict) = true.
+Proof. vm_compute. reflexivity. Qed.
+Lemma strict_OpType_alternatives : List.length (optype_names published_hugr_strict) = 22.
+Proof. vm_compute. reflexivity. Qed.
+
+(* "the operation objects are valid", assumed for the parent index 0 only *)
+Definition ops_valid0 (root : json) (sop : Type) (op_fields : sop -> obj) (f : nat) : Prop :=
+  forall o : sop, accepts f root "OpType" (node_obj op_fields o 0) = true.
+Lemma ops_valid0_all root sop op_fields f :
+  pclosed root (optype_names root) = true -> ops_valid0 root sop op_fields f -> ops_valid root sop op_fields f.
+Proof.
+  intros Hc H o p. unfold node_obj, nat_json.
+  change (JObj (("parent", JNum (Z.of_nat p)) :: op_fields o)) with (pnode (Z.of_nat p) (op_fields o)).
+  rewrite (accepts_parent_indep root _ "OpType" Hc (or_introl eq_refl) f _ (Z.of_nat 0)). apply H.
+Qed.
 
 Section Published.
   Variables sop md : Type.
@@ -38,16 +58,22 @@ Section Published.
   Variable ndp : op -> dir -> option nat.
   Variable md_is_nil : md -> bool.
   Theorem published_model_doc_accepted : forall (encoder : option string) (f : nat) (h : hugr op md) (s : serial sop md),
-    4 <= f -> ops_valid published_hugr_strict sop op_fields f ->
+    4 <= f -> ops_valid0 published_hugr_strict sop op_fields f ->
     to_serial enc ndp md_is_nil h = Some s ->
     accepts (3 + f) published_hugr_strict "SerialHugr" (doc_json op_fields md_fields encoder s) = true.
-  Proof. intros e f h s Hf Hop _. now apply published_doc_accepted. Qed.
+  Proof.
+    intros e f h s Hf Hop _. apply published_doc_accepted; [exact Hf|].
+    now apply ops_valid0_all; [exact strict_OpType_parent_cert|].
+  Qed.
   Theorem published_model_pkg_accepted : forall (f : nat) (hs : list (hugr op md)) (mods : list (serial sop md)) (exts : list json),
-    4 <= f -> ops_valid published_hugr_strict sop op_fields f ->
+    4 <= f -> ops_valid0 published_hugr_strict sop op_fields f ->
     mapM (to_serial enc ndp md_is_nil) hs = Some mods ->
     (forall e, In e exts -> accepts (3 + f) published_hugr_strict "Extension" e = true) ->
     accepts (6 + f) published_hugr_strict "Package" (pkg_json op_fields md_fields mods exts) = true.
-  Proof. intros f hs mods exts Hf Hop _ He. now apply published_pkg_accepted. Qed.
+  Proof.
+    intros f hs mods exts Hf Hop _ He. apply published_pkg_accepted; [exact Hf| |exact He].
+    now apply ops_valid0_all; [exact strict_OpType_parent_cert|].
+  Qed.
 End Published.
 
 (* non-vacuity on the real constant: two operations whose objects the published OpType accepts with every parent
